@@ -26,6 +26,28 @@ def emit_violation(prop, replay):
     print("VIOLATION property=%s replay=%s" % (prop, replay), flush=True)
 
 
+def run_guarded(mod, ctx, prop_id):
+    """mod.run(ctx); an exception that the LIBRARY raised and that reached the check through a call it does not guard is a
+    finding about the library (on the unchanged tree every stream of every check runs through), not an infrastructure error:
+    it is recorded as a failure and the stream ends there.  Exceptions raised by the harness itself still propagate."""
+    import traceback
+    try:
+        mod.run(ctx)
+    except (core.ModelBroken, core.Infra, KeyboardInterrupt, SystemExit, MemoryError):
+        raise
+    except Exception as e:
+        tb = traceback.extract_tb(e.__traceback__)
+        lib = [fr for fr in tb if "/catii/" in fr.filename.replace("\\", "/") and "/harness/" not in fr.filename]
+        if not lib or "/harness/" in tb[-1].filename:
+            raise
+        har = [fr for fr in tb if "/harness/" in fr.filename]
+        where = "%s:%d" % (os.path.basename(har[-1].filename), har[-1].lineno) if har else "?"
+        ctx.oracle_fail("the library raised %s: %s (%s:%d %s) on an input of the check's stream, reached from %s - on the unchanged "
+                        "tree this stream runs through" % (type(e).__name__, str(e)[:80], os.path.basename(lib[-1].filename),
+                                                          lib[-1].lineno, lib[-1].name, where),
+                        {"unguarded": where, "exception": type(e).__name__}, cls="%s-raises" % prop_id)
+
+
 def main(argv=None):
     ap = argparse.ArgumentParser()
     ap.add_argument("prop")
@@ -52,13 +74,13 @@ def main(argv=None):
                 a.replay, prop_id))
             return main([prop_id, "--tier", rep.get("tier", "quick")])
         ctx = core.Ctx(prop_id, a.tier, seed)
-        ok = mod.replay(ctx, rep)
+        ok = True if (isinstance(rep.get("case"), dict) and rep["case"].get("unguarded")) else mod.replay(ctx, rep)
         if ok and rep.get("run"):
             # deterministic re-generation: the same (seed, scale, tier) re-creates the same inputs on the real code
             core.regen()
             r = rep["run"]
             ctx = core.Ctx(prop_id, r["tier"], r["seed"], scale=r["scale"], oracle_only=True)
-            mod.run(ctx)
+            run_guarded(mod, ctx, prop_id)
             same = [f for f in ctx.oracle_failures if f["cls"] == rep.get("cls") and f["what"] == rep.get("what")]
             ok = not same
             if same:
@@ -106,11 +128,11 @@ def main(argv=None):
         # 3+4 correspondence and oracle ---------------------------------------
         ctx = core.Ctx(prop_id, a.tier, seed, oracle_only=not model_ok)
         try:
-            mod.run(ctx)
+            run_guarded(mod, ctx, prop_id)
         except core.ModelBroken as e:
             broken.append("model driver: %s" % e)
             ctx = core.Ctx(prop_id, a.tier, seed, oracle_only=True)
-            mod.run(ctx)
+            run_guarded(mod, ctx, prop_id)
         if ctx.corr_failures:
             broken.append("correspondence: %d disagreement(s); first: %s" % (
                 len(ctx.corr_failures), json.dumps(ctx.corr_failures[0], default=str)[:600]))
@@ -132,7 +154,7 @@ def main(argv=None):
             hints = [f["case"] for f in ctx.corr_failures]
             ctx2.hints = hints
             try:
-                mod.run(ctx2)
+                run_guarded(mod, ctx2, prop_id)
             except core.ModelBroken:
                 pass
             new_fail = [f for f in ctx2.oracle_failures if f["cls"] not in known]
